@@ -134,6 +134,11 @@ def build(spec):
         with warnings.catch_warnings():
             warnings.simplefilter("ignore")
             net = type(net).from_json(net.to_json())
+    if spec.get("scribble"):
+        # the caller has post-processed the constraint table the network handed out
+        from .. import scenario as _sc
+
+        _sc.scribble_on_table(net)
     return net
 
 
@@ -204,6 +209,8 @@ def prop(spec, rec):
     labels = {spec["site"], "basic" if spec["basic"] else "real_evse", "linear" if linear else "phase_aware", "kind_" + spec["kind"]}
     if spec.get("json"):
         labels.add("loaded_from_json")
+    if spec.get("scribble"):
+        labels.add("constraint_table_edited_by_caller")
     labels.add("entry_" + spec.get("entry", "keyword"))
     if spec.get("entry", "").startswith("alias"):
         labels.add("deprecated_alias_entry")
@@ -338,6 +345,7 @@ def cases(draw):
         "linear": draw(st.integers(0, 3)) == 0,
         "snap_down": draw(st.booleans()),
         "json": draw(st.integers(0, 3)) == 0,
+        "scribble": draw(st.integers(0, 3)) == 0,
         "entry": draw(st.sampled_from(["keyword", "positional", "alias", "alias", "alias_positional"] if site == "caltech" else ["keyword", "keyword", "positional"])),
         "stochastic_type": draw(st.integers(0, 4)) == 0,
         "evse_voltage": draw(st.sampled_from([208, 208, 208, 240, 120])),
@@ -393,7 +401,7 @@ def prop_structure(spec, rec):
 
 def subchecks(tier):
     return [
-        Given("frontier", cases(), prop, quick=320, thorough=30000, floors={"near_rating": 0.2, "at_rating": 0.1, "linear": 0.1, "real_evse": 0.12, "lenient_query_first": 0.1, "deprecated_alias_entry": 0.02, "two_period_schedule_equal_totals": 0.1, "huge_transformer_capacity": 0.03, "horizon_over_4096_periods": 0.04}, jobs_quick=8),
+        Given("frontier", cases(), prop, quick=320, thorough=30000, floors={"near_rating": 0.2, "at_rating": 0.1, "linear": 0.1, "real_evse": 0.12, "lenient_query_first": 0.1, "deprecated_alias_entry": 0.02, "two_period_schedule_equal_totals": 0.1, "huge_transformer_capacity": 0.03, "horizon_over_4096_periods": 0.04, "constraint_table_edited_by_caller": 0.1}, jobs_quick=8),
         Exhaustive("structure", structure_items, prop_structure, jobs_quick=2),
     ]
 
